@@ -55,7 +55,7 @@ func generateIntegrationDiagramHelper(m *sysl.Module, appName string,
 			return "", err
 		}
 	}
-	endPoints := m.Apps[appName].Endpoints
+	endPoints := m.Apps[appName].GetEndpoints()
 	// For every endpoint, the statements are retrieved and we pass it to the printer to print appropriate mermaid code
 	for _, epName := range mermaid.SortedKeys(endPoints) {
 		statements := endPoints[epName].Stmt
